@@ -147,18 +147,23 @@ def r3(ctx):
             ctx.ob(f"{key.rsplit('::',1)[1]} reads {pc}s", pc in pcs, f"{key} never reads the {pc} set", site=body.get("def_span"))
     for pc in ("Knight", "Pawn"):
         ctx.ob(f"update_pin_info reads {pc}s", pc in piece_consts(P, upd), f"update_pin_info never reads the {pc} set", site=P.body(upd).get("def_span"))
-    # incremental version: slider loop unconditional; sets cleared first
+    # incremental version: the slider phase runs unconditionally (a loop in make-move itself, or one call that hands it to a private helper / a closure)
     body = P.body(mk)
     c = cfg_of(body)
     loops = c.loops()
+    calls_between = lambda f: any(t_["f"].get("fn") == "chess_lookup::between" for _, t_ in P.calls(f))
+    phase_fns = {f for f in private_closure(P, mk) if f != mk and any(calls_between(g_) for g_ in private_closure(P, f))}
     slider = []
     for h, bl in loops.items():
-        calls = {body["blocks"][b]["t"]["f"].get("fn") for b in bl if body["blocks"][b]["t"]["k"] == "call" and body["blocks"][b]["t"]["f"].get("k") == "fnref"}
+        calls = {body["blocks"][b_]["t"]["f"].get("fn") for b_ in bl if body["blocks"][b_]["t"]["k"] == "call" and body["blocks"][b_]["t"]["f"].get("k") == "fnref"}
         if "chess_lookup::between" in calls:
             slider.append(h)
+    for bi, blk in enumerate(body["blocks"]):
+        if (blk["t"]["k"] == "call" and blk["t"]["f"].get("fn") in phase_fns) or any(s_.get("r", {}).get("k") == "agg" and s_["r"].get("ak") == "closure" and s_["r"].get("fn") in phase_fns for s_ in blk["s"]):
+            slider.append(bi)
     ctx.ob("make-move slider loop", len(slider) == 1 and c.postdominates(slider[0], 0),
            "the loop over the mover's sliders aligned with the enemy king is missing or conditional in move_unchecked_into: discovered, castling-rook, promotion and "
-           "en-passant-discovered checks would be missed", site=body.get("def_span"), sample={"loop_header": slider})
+           "en-passant-discovered checks would be missed", site=body.get("def_span"), sample={"slider_phase_block": slider})
     for fld in ("pinned", "checkers"):
         ws = k2.assigns_to_field(P, mk, MG + "Board", fld)
         resets = [b for b, s in ws if s["r"].get("k") in ("use", "agg")]
@@ -170,20 +175,27 @@ def r3(ctx):
       for k_ in sorted(private_closure(P, key)):
         body = P.body(k_)
         c = cfg_of(body)
-        for h, bl in c.loops().items():
-            names = set()
-            consts = set()
-            for b in bl:
-                t = body["blocks"][b]["t"]
-                if t["k"] == "call" and t["f"].get("k") == "fnref":
-                    names.add(t["f"]["fn"].rsplit("::", 1)[-1])
-                for s in body["blocks"][b]["s"]:
+        # the unit that examines one slider: a loop body, or the whole body of a closure / helper called once per slider
+        units = list(c.loops().values())
+        if not units and k_ != key:
+            units = [set(range(len(body["blocks"])))]
+        for bl in units:
+            names, consts, sw = set(), set(), set()
+            for b_ in bl:
+                t_ = body["blocks"][b_]["t"]
+                if t_["k"] == "call" and t_["f"].get("k") == "fnref":
+                    names.add(t_["f"]["fn"].rsplit("::", 1)[-1])
+                if t_["k"] == "switch":
+                    d = k2.describe_operand(P, body, t_["d"])
+                    if d[0] == "call" and d[1].endswith("BitBoard::count"):
+                        sw |= {int(v) for v, _ in t_["tg"]}
+                for s in body["blocks"][b_]["s"]:
                     r = s.get("r", {})
                     if r.get("k") == "bin" and r.get("op") == "Eq":
                         for o in (r["a"], r["b"]):
                             if o.get("k") == "const" and "int" in o.get("c", {}):
                                 consts.add(int(o["c"]["int"]))
-            if {"between", "none", "count"} <= names and 1 in consts:
+            if {"between", "count"} <= names and (("none" in names and 1 in consts) or {0, 1} <= sw):
                 n_ok += 1
       ctx.ob(f"{key.rsplit('::',1)[1]} checker/pin split", n_ok == 1, f"{key}: the slider loop does not classify `between` as empty (check) / exactly one blocker (pin)", site=P.body(key).get("def_span"))
 
